@@ -122,6 +122,10 @@ def shape_family(tier, seed):
     for nv0, nv1, r in ((1, 3, 1), (2, 3, 2), (3, 2, 1), (3, 4, 1)):
         fam.append(make_shape([('present', nv0, nv0, 1), ('present', nv1, nv1, 3)], False, True, 3, (nv1 - r) * 8))
         fam.append(make_shape([('present', nv0, 1, 2), ('present', nv1, 1, 2)], True, False, 3, (nv1 - r) * 4))
+    # the same channels listed in a different order in a later new-object-list segment (index cache keyed by the ordered list)
+    for (n0a, n0b, n1a, n1b) in ((2, 1, 3, 2), (1, 3, 2, 1), (3, 3, 1, 2)):
+        fam.append([s1.seg([[A, 'full', 3, n0a], [B, 'full', 2, n0b]], 2), s1.seg([[B, 'full', 2, n1b], [A, 'full', 3, n1a]], 2),
+                    s1.seg([[A, 'full', 3, n0a], [B, 'full', 2, n0b]], 1)])
     # zero-length channel variants
     fam.append(make_shape([('present', 0, 2, 1)], False, False, 3, 0))
     fam.append(make_shape([('nodata', 0, 2, 1), ('nodata', 0, 1, 2)], False, False, 3, 0))
